@@ -149,6 +149,16 @@ frg::expected<format_error> printf_format(A agent, const char *s, va_struct *vsp
 			++s;
 			FRG_ASSERT(*s);
 			opts.minimum_width = pop_arg<int>(vsp, &opts);
+			// A negative field width argument is taken as a '-' flag
+			// followed by a positive field width.
+			if(opts.minimum_width < 0) {
+				opts.left_justify = true;
+				// (the most negative value has no positive counterpart)
+				if(opts.minimum_width == -__INT_MAX__ - 1)
+					opts.minimum_width = __INT_MAX__;
+				else
+					opts.minimum_width = -opts.minimum_width;
+			}
 		}else{
 			int w = 0;
 			while(*s >= '0' && *s <= '9') {
@@ -166,7 +176,10 @@ frg::expected<format_error> printf_format(A agent, const char *s, va_struct *vsp
 			if(*s == '*') {
 				++s;
 				FRG_ASSERT(*s);
-				opts.precision = pop_arg<int>(vsp, &opts);
+				// A negative precision argument is taken as if the precision were omitted.
+				int value = pop_arg<int>(vsp, &opts);
+				if(value >= 0)
+					opts.precision = value;
 			}else{
 				int value = 0;
 				// If no integer follows the '.', then precision is taken to be zero
